@@ -224,10 +224,21 @@ class State:
             return ts is not None and not (ts & c[2])
         if k == "cmp":
             return self.holds(("cmp", NEG_CMP[c[1]], c[2], c[3]))
-        if k == "in":
-            return self.holds(("notin", c[1], c[2]))
-        if k == "notin":
-            return self.holds(("in", c[1], c[2]))
+        if k in ("in", "notin"):
+            if self.holds(("notin" if k == "in" else "in", c[1], c[2])):
+                return True
+            # both sides constant (after a call-site substitution): decided by evaluation
+            if is_const(c[1]) and is_lit(c[2]) and c[2][1] in ("list", "tuple", "set"):
+                from .terms import lit_const_values
+
+                vals = lit_const_values(c[2])
+                if vals is not None and not any(isinstance(v, tuple) for v in vals):
+                    try:
+                        res = c[1][2] in list(vals)
+                    except TypeError:
+                        return False
+                    return res != (k == "in")
+            return False
         if k == "anyof":
             return all(self.contradicts(x) for x in c[1])
         if k == "keys":
@@ -306,6 +317,8 @@ def structural_type(t):
         return frozenset(["function"])
     if k == "nt" or (k in ("obj", "enum") and len(t) == 3):
         return frozenset(["obj:" + t[1]])
+    if k == "excobj":
+        return frozenset(["exception"])
     if k == "call":
         r = RET_TYPES.get(t[1])
         if r:
@@ -1460,13 +1473,16 @@ class Walker:
                 vague = p.origin in ("dynamic", "unknown-callable", "opaque")
                 for h in n.handlers:
                     names = self.handler_classes(h, s)
+                    dyn = "?dynamic" in names
+                    names = [nm for nm in names if nm != "?dynamic"]
                     certain = any(self.prog.exc_is_sub(p.exc, nm) for nm in names)
                     # an exception from code the analysis does not see ("may raise anything") may be
                     # any subclass: a narrower handler possibly catches it, and it possibly escapes
-                    possible = vague and any(self.prog.exc_is_sub(nm, p.exc) for nm in names)
+                    possible = dyn or (vague and any(self.prog.exc_is_sub(nm, p.exc) for nm in names))
                     if possible and not certain:
                         hs = s.copy()
-                        narrowed = Exc([nm for nm in names if self.prog.exc_is_sub(nm, p.exc)][0], p.chain, p.conds, p.origin, p.why)
+                        sub_names = [nm for nm in names if self.prog.exc_is_sub(nm, p.exc)]
+                        narrowed = Exc(sub_names[0], p.chain, p.conds, p.origin, p.why) if sub_names and vague else p
                         hs.env["$exc"] = narrowed
                         if h.name:
                             hs.env[h.name] = ("excobj", narrowed.exc)
@@ -1504,7 +1520,7 @@ class Walker:
         for h in n.handlers:
             if h.type is None:
                 continue
-            names = self.handler_classes(h, st)
+            names = [nm for nm in self.handler_classes(h, st) if nm != "?dynamic"]
             res_names = [nm for nm in names if nm in ("RecursionError", "MemoryError")]
             if res_names and any(isinstance(x, ast.Call) for b in n.body for x in ast.walk(b)):
                 hs = st.copy()
@@ -1543,6 +1559,10 @@ class Walker:
             names = self._exc_tuple_constant(x, st)
             if names is not None:
                 out.extend(names)
+            elif isinstance(x, ast.Name) and x.id in st.env and isinstance(st.env[x.id], tuple) and st.env[x.id][0] == "param":
+                # `except unwelcome:` in a helper analysed on its own: the class is whatever a
+                # caller passes - the handler possibly catches, and the exception possibly escapes
+                out.append("?dynamic")
             else:
                 out.append(self.exc_class_name(x, st))
         return out
